@@ -712,7 +712,8 @@ def gen_oracle_cases(ctx: Ctx, rng, count: int):
 
 def run_oracle_case(ctx: Ctx, case):
     {"change": oracle_change, "conv": oracle_conv, "roundtrip": oracle_roundtrip, "variants": oracle_variants,
-     "reuse": oracle_reuse, "reuse_change": oracle_reuse_change, "spelling": oracle_spellings}[case["op"]](ctx, case)
+     "reuse": oracle_reuse, "reuse_change": oracle_reuse_change, "spelling": oracle_spellings,
+     "keyword_roundtrip": oracle_keyword_roundtrip}[case["op"]](ctx, case)
 
 
 
@@ -1326,6 +1327,73 @@ def gen_spelling_cases(ctx: Ctx, rng, count: int):
     return cases
 
 
+# ---------------------------------------------------------------------------------------
+# change-then-cumulate round trip with KEYWORD shifts (forward), regular and daily frequencies, multi-year spans
+# ---------------------------------------------------------------------------------------
+
+def oracle_keyword_roundtrip(ctx: Ctx, case):
+    """cum_X(X(x, kw), kw, initial=x, span) == x on a forward unit-step span, kw in yoy/soy/eopy/tty, when x has no missing value from
+    the earliest reference period of the span to its end (model theorem `inverts_forward_keyword`; the reference periods are those
+    of the documented change formulas: t-a, first segment of the year, last segment of the previous year, t-1 within the year)"""
+    f, start, kind, kw = case["freq"], case["start"], case["kind"], case["shift"]
+    rows = rows_of(case)
+    nv = len(rows[0])
+    a, b = case["span"]
+    x = make_series(f, start, rows)
+    ctx.evaluations += 1
+    site = f"roundtrip-keyword-{kind}"
+    refs = [r for r in (ref_serial(f, t, kw) for t in range(a, b + 1)) if r is not None]
+    lo = min(refs + [a])
+    if lo < start or b > start + len(rows) - 1:
+        return
+    try:
+        with warnings.catch_warnings(), np.errstate(all="ignore"):
+            warnings.simplefilter("ignore")
+            ch = getattr(ir, kind[4:])(x, kw)
+            y = getattr(ir, kind)(ch, kw, initial=x, span=ir.Span(CLS[f](a), CLS[f](b)))
+    except Exception as e:
+        ctx.fail(site, case, f"{kind}({kind[4:]}(x, {kw!r}), {kw!r}, initial=x, span) raises {e!r}")
+        return
+    got = table_of(y)
+    for t in range(a, b + 1):
+        for j in range(nv):
+            g = float(got[t][j]) if t in got else NAN
+            want = rows[t - start][j]
+            if not close(g, want):
+                ctx.fail(site, case, f"period serial {t} variant {j} (reference serial {ref_serial(f, t, kw)}): round trip with shift {kw!r} gives {g!r}, original value {want!r}")
+                return
+    ctx.nontriv(("roundtrip-keyword", kind, f, kw, any(ref_serial(f, t, "tty") is None for t in range(a, b + 1))))
+
+
+def gen_keyword_roundtrip_cases(ctx: Ctx, rng, count: int):
+    cases = []
+    for i in range(count):
+        daily = rng.chance(0.2)
+        f = "D" if daily else rng.weighted([("Q", 4), ("M", 4), ("H", 2), ("Y", 2)])
+        kw = rng.choice(KEYWORDS)
+        kind = rng.choice(CUMS)
+        nv = rng.weighted([(1, 3), (2, 1)])
+        cls = "dyadic" if kind == "cum_diff" and rng.chance(0.5) else "positive"
+        if daily:
+            # spans around a turn of the year or inside the year after a leap year (where "the same day last year" is 366 days back)
+            year = rng.choice([2020, 2021, 2021, 2024, 2025, 2025, 2023])
+            a = dt.date(year, rng.choice([1, 1, 2, 3, 6, 12]), rng.randint(1, 28)).toordinal() - (rng.randint(0, 20) if rng.chance(0.3) else 0)
+            b = a + rng.randint(3, 45)
+            start = a - 366 - 366 * (1 if kw in ("soy", "eopy") and rng.chance(0.2) else 0) - rng.randint(3, 10)
+        else:
+            v = FVAL[f]
+            years = rng.randint(1, 3)
+            a = BASE[f] + rng.randint(-2 * v, 2 * v)
+            b = a + rng.randint(max(1, v - 1), years * v + 2)        # mostly containing at least one start-of-year period
+            start = a - 2 * v - rng.randint(0, 3)
+        n = b - start + 1 + rng.randint(0, 3)
+        cols = [gen_values(rng, n, cls, f) for _ in range(nv)]
+        cases.append({"op": "keyword_roundtrip", "kind": kind, "freq": f, "start": start, "shift": kw, "span": [a, b],
+                      "values": [list(r) for r in zip(*cols)]})
+        ctx.count(f"keyword_roundtrip:{f}:{kw}")
+    return cases
+
+
 FIXED_ORACLE_CASES = [
     # one deterministic round trip per cumulation function and direction, and the five conversion helpers (quarterly)
     *[{"op": "roundtrip", "kind": kind, "freq": "Q", "start": 8081, "shift": k, "direction": d, "span": sp,
@@ -1399,7 +1467,8 @@ def run(ctx: Ctx):
         run_oracle_case(ctx, case)
     xrng = ctx.rng.fork("oracle-extra")
     extra = gen_variant_cases(ctx, xrng.fork("variants"), ctx.n(600, 12000)) + gen_reuse_cases(ctx, xrng.fork("reuse"), ctx.n(400, 8000)) \
-        + gen_spelling_cases(ctx, xrng.fork("spelling"), ctx.n(500, 8000))
+        + gen_spelling_cases(ctx, xrng.fork("spelling"), ctx.n(500, 8000)) \
+        + gen_keyword_roundtrip_cases(ctx, xrng.fork("keyword-roundtrip"), ctx.n(400, 6000))
     for case in extra:
         run_oracle_case(ctx, case)
         ctx.count("oracle:" + case["op"])
@@ -1438,7 +1507,8 @@ def search(ctx: Ctx, seeds):
         run_oracle_case(ctx, case)
     rng = ctx.rng.fork("search")
     # first the axes on which a rearranged-but-"equal" formula or a changed signature shows: magnitudes, spellings
-    for case in gen_oracle_cases(ctx, rng.fork("magnitude"), 300 if small else 2500) + gen_spelling_cases(ctx, rng.fork("spelling"), 100 if small else 800):
+    for case in gen_oracle_cases(ctx, rng.fork("magnitude"), 300 if small else 2500) + gen_spelling_cases(ctx, rng.fork("spelling"), 100 if small else 800) \
+            + gen_keyword_roundtrip_cases(ctx, rng.fork("keyword-roundtrip"), 100 if small else 1200):
         run_oracle_case(ctx, case)
         if len(ctx.failures) >= 5:
             return
